@@ -35,3 +35,13 @@ Print Assumptions C09_tables_ok.
 Theorem C09_live_equals_stored : rc_sound chk_row_C08.
 Proof. exact C08_row_sound. Qed.
 Print Assumptions C09_live_equals_stored.
+
+(* No gap between backfill and live.  On the faithful interleaving model (Backfill and Register are two
+   actions, as in StartDCPFeed) the full statement is FALSE: *)
+From Rosmar Require Import Feed FeedProofs.
+Theorem C09_gap_refuted :
+  ~ (forall acts name, In name (names_of acts) -> settled (frun_all acts) name = true -> complete_for (frun_all acts) name = true).
+Proof. exact gap_refuted. Qed.
+Print Assumptions C09_gap_refuted.
+(* the witness (a write commits after the backfill query and reads the feed list before registration) is
+   KNOWN_FINDINGS KF-C09-gap; the sched family replays it on the code and checks every other schedule *)
